@@ -228,6 +228,7 @@ fn strat_sampled(_t: Tier) -> BoxedStrategy<FaultCase> {
 
 pub fn def() -> PropertyDef {
     PropertyDef {
+        fuzz_targets: &[],
         id: "C13",
         level: "fault_enumeration",
         rule: "for each generated small history (video-only, A/V, reordered, fast start on/off, metadata) a fault-free reference run records its K sink \
